@@ -37,7 +37,9 @@ ASSUMPTIONS = [
     "entry-guards, circuit-status and stream-status are empty; relay objects outside the documents arise only from the "
     "harness's own lookups of unlisted identities (router_from_id / CIRC LAUNCHED|EXTENDED paths)",
     "what router_from_id() returns for an identity no document lists is not judged, and TorState.routers (the lookup "
-    "table) may remember such placeholders; routers_by_hash, routers_by_name, all_routers, guards and authorities may not",
+    "table) may remember such placeholders - blank ones only: not the Router object of an earlier document and nothing "
+    "that claims consensus data (from_consensus, flags, bandwidth, IPv6) - ; routers_by_hash, routers_by_name, "
+    "all_routers, guards and authorities may not hold them at all",
     "a replacement document that lists no relay must empty the view (the statement's 'equals the latest document'); "
     "Tor itself suppresses a NEWCONSENSUS event without entries, so this limit case carries its own class +empty-document",
     "flag order, the form (str/int) of port values and 0 vs None for an absent bandwidth are not judged",
@@ -63,6 +65,7 @@ FLOORS = {
               "lookups_compared": 30000, "reused_relays_seen": 4000, "object_identity_checks": 4000,
               "collections_compared": 1600, "codec_roundtrips": 2000, "empty_documents": 60,
               "unlisted_identity_lookups": 600, "views_recompared_after_lookups": 350, "circ_events_with_paths": 150,
+              "unlisted_entries_inspected": 500,
               "reach:txtorcon.torstate:TorState._create_router": 9000,
               "reach:txtorcon.torstate:TorState._update_network_status": 400,
               "reach:txtorcon.torstate:TorState.router_from_id": 30000},
@@ -70,6 +73,7 @@ FLOORS = {
                  "lookups_compared": 1500000, "reused_relays_seen": 250000, "object_identity_checks": 250000,
                  "collections_compared": 80000, "codec_roundtrips": 100000, "empty_documents": 3000,
                  "unlisted_identity_lookups": 30000, "views_recompared_after_lookups": 18000, "circ_events_with_paths": 7000,
+                 "unlisted_entries_inspected": 25000,
                  "reach:txtorcon.torstate:TorState._create_router": 500000,
                  "reach:txtorcon.torstate:TorState._update_network_status": 25000},
 }
@@ -176,10 +180,13 @@ def gen_case(rnd):
         if rnd.random() < 0.45:
             listed = [r["id"] for r in docs[k]]
             left = sorted(set(pool) - set(listed))
+            departed = sorted({r["id"] for r in docs[k - 1]} - set(listed)) if k else []
             unl = []
             for _ in range(rnd.choice([1, 1, 2, 3])):
                 r = rnd.random()
-                if left and r < 0.5:
+                if departed and r < 0.4:
+                    unl.append(rnd.choice(departed))               # listed in the previous document, gone in this one
+                elif left and r < 0.55:
                     unl.append(rnd.choice(left))                   # relay of the pool not in this document
                 elif r < 0.6:
                     unl.append(rnd.choice(BOUNDARY_IDS))
@@ -189,7 +196,8 @@ def gen_case(rnd):
             forms = []
             for u in unl:
                 f = rnd.choice(["hex", "hex~nick", "hex=nick"])
-                forms.append("$" + u + {"hex": "", "hex~nick": "~" + rnd.choice(NICKS), "hex=nick": "=" + rnd.choice(NICKS)}[f])
+                nick = pool[u]["nick"] if u in pool and rnd.random() < 0.7 else rnd.choice(NICKS)
+                forms.append("$" + u + {"hex": "", "hex~nick": "~" + nick, "hex=nick": "=" + nick}[f])
             pr = {"lookup": [], "circ": None}
             if rnd.random() < 0.6:
                 pr["lookup"] = forms
@@ -197,7 +205,7 @@ def gen_case(rnd):
                 path = list(forms)
                 for r in rnd.sample(docs[k], min(len(docs[k]), rnd.randint(0, 2))):
                     path.insert(rnd.randint(0, len(path)), "$%s~%s" % (r["id"], r["nick"]))
-                pr["circ"] = {"id": rnd.randint(1, 9999), "status": rnd.choice(["EXTENDED", "LAUNCHED", "EXTENDED"]),
+                pr["circ"] = {"id": rnd.randint(1, 9999), "status": rnd.choice(["EXTENDED", "LAUNCHED", "BUILT", "BUILT"]),
                               "path": path}
             probes.append(pr)
         else:
@@ -415,6 +423,25 @@ def judge(st, docs, k, prev, rec, V, flags, asked=(), phase=None):
         "routers": [key for key in st.routers.keys() if key.startswith("$") and (key in wids or key not in asked)],
         "routers_by_name": [getattr(r, "id_hex", None) for lst in st.routers_by_name.values() for r in lst],
     }
+    # ... but what it remembers for an identity the document does not list must be a blank
+    # placeholder: not the Router object of an earlier document, nothing claiming consensus data
+    ever = flags.setdefault("ever", {})
+    for key in [x for x in st.routers.keys() if x.startswith("$") and x not in wids]:
+        r = st.routers[key]
+        rec.count("unlisted_entries_inspected")
+        sfx = "+" + phase if phase else ""
+        if r is None:
+            continue
+        if any(r is o for o in ever.get(key, ())):
+            V("departed-relay-kept-in-lookup-table", "router-object-of-earlier-document" + sfx,
+              {"document": k, "id": key, "from_consensus": getattr(r, "from_consensus", None),
+               "flags": list(getattr(r, "flags", [])), "bandwidth": getattr(r, "bandwidth", None)})
+        elif (getattr(r, "from_consensus", False) or list(getattr(r, "flags", [])) or list(getattr(r, "ip_v6", []))
+              or getattr(r, "bandwidth", 0) not in (0, None)):
+            V("departed-relay-kept-in-lookup-table", "entry-claims-consensus-data" + sfx,
+              {"document": k, "id": key, "from_consensus": getattr(r, "from_consensus", None),
+               "flags": list(getattr(r, "flags", [])), "bandwidth": getattr(r, "bandwidth", None),
+               "ip_v6": list(getattr(r, "ip_v6", []))})
     bad_set = False
     for name, got in indexes.items():
         stale = sorted(set(got) - wids)
@@ -432,6 +459,8 @@ def judge(st, docs, k, prev, rec, V, flags, asked=(), phase=None):
     for fp in sorted(wids):
         r = st.routers_by_hash[fp]
         objs[fp] = r
+        if not any(r is o for o in ever.setdefault(fp, [])):
+            ever[fp].append(r)          # the objects themselves: a bare id() is reused after collection
         if st.routers.get(fp) is not r or r not in st.all_routers:
             V("index-object-mismatch", "routers-vs-routers_by_hash", {"document": k, "id": fp})
     # -- every attribute the statement names ----------------------------------
